@@ -865,3 +865,282 @@ func recvVarName(fn *ssa.Function) string {
 	}
 	return ""
 }
+
+// withHelpers visits fn, its function literals and — depth calls deep — the unexported functions of the same package that
+// they call or start with go (the named methods a goroutine body, a loop body or a critical section was moved to).
+func (p *Prog) withHelpers(fn *ssa.Function, depth int, f func(*ssa.Function)) {
+	seen := map[*ssa.Function]bool{}
+	var visit func(g *ssa.Function, d int)
+	visit = func(g *ssa.Function, d int) {
+		if g == nil || g.Blocks == nil || seen[g] {
+			return
+		}
+		seen[g] = true
+		f(g)
+		for _, a := range g.AnonFuncs {
+			visit(a, d)
+		}
+		if d >= depth {
+			return
+		}
+		allInstrs(g, func(ins ssa.Instruction) {
+			cc := instrCall(ins)
+			if cc == nil {
+				return
+			}
+			cal := cc.StaticCallee()
+			if cal == nil || !p.Analysed(cal) || fnPkgPath(cal) != fnPkgPath(fn) {
+				return
+			}
+			if o := cal.Object(); o != nil && o.Exported() {
+				return
+			}
+			visit(cal, d+1)
+		})
+	}
+	visit(fn, 0)
+}
+
+// liftToCallers: pred holds for instruction at in its function — or, when the instruction sits in an unexported helper
+// that is only ever called statically, for the call of that helper at every one of its call sites (two levels up at
+// most). This is how a rule about "X happens only after Y in this function" follows X into a helper it was moved to.
+func (p *Prog) liftToCallers(at ssa.Instruction, pred func(fn *ssa.Function, at ssa.Instruction) bool, depth int) bool {
+	fn := at.Parent()
+	if pred(fn, at) {
+		return true
+	}
+	if depth >= 2 || fn.Parent() != nil || (fn.Object() != nil && fn.Object().Exported()) {
+		return false
+	}
+	sites := p.staticCallSites(fn)
+	if len(sites) == 0 {
+		return false
+	}
+	for _, s := range sites {
+		if _, isCall := s.(*ssa.Call); !isCall {
+			return false
+		}
+		if !p.liftToCallers(s, pred, depth+1) {
+			return false
+		}
+	}
+	return true
+}
+
+// attemptOf: the function in which fn's function-valued parameter is actually called — fn itself, or the module
+// function fn hands the parameter on to ("one attempt" split out of a retry loop). site is the call of that function
+// in fn (nil when it is fn itself), fcall the call of the parameter.
+func (p *Prog) attemptOf(fn *ssa.Function) (att *ssa.Function, fcall *ssa.Call, site *ssa.Call) {
+	paramCall := func(g *ssa.Function, idx int) *ssa.Call {
+		var out *ssa.Call
+		allInstrs(g, func(ins ssa.Instruction) {
+			if c, ok := ins.(*ssa.Call); ok && !c.Call.IsInvoke() && c.Call.StaticCallee() == nil {
+				if prm, isParam := c.Call.Value.(*ssa.Parameter); isParam && (idx < 0 || g.Params[idx] == prm) {
+					out = c
+				}
+			}
+		})
+		return out
+	}
+	if c := paramCall(fn, -1); c != nil {
+		return fn, c, nil
+	}
+	allInstrs(fn, func(ins ssa.Instruction) {
+		c, ok := ins.(*ssa.Call)
+		if !ok || att != nil {
+			return
+		}
+		cal := c.Call.StaticCallee()
+		if cal == nil || !p.Analysed(cal) {
+			return
+		}
+		for i, a := range callArgs(&c.Call) {
+			if prm, isP := a.(*ssa.Parameter); isP && prm.Parent() == fn && i < len(cal.Params) {
+				if _, isSig := prm.Type().Underlying().(*types.Signature); !isSig {
+					continue
+				}
+				if pc := paramCall(cal, i); pc != nil {
+					att, fcall, site = cal, pc, c
+					return
+				}
+			}
+		}
+	})
+	return
+}
+
+// structLitFields: when v is the value of a struct literal built in its function (load of a local the literal's
+// stores went into), the values stored per field index; absent fields hold the zero value.
+func structLitFields(v ssa.Value) (map[int]ssa.Value, bool) {
+	if k, isK := v.(*ssa.Const); isK && k.Value == nil {
+		if _, isStruct := k.Type().Underlying().(*types.Struct); isStruct {
+			return map[int]ssa.Value{}, true
+		}
+	}
+	u, ok := v.(*ssa.UnOp)
+	if !ok || u.Op != token.MUL {
+		return nil, false
+	}
+	a, ok := u.X.(*ssa.Alloc)
+	if !ok {
+		return nil, false
+	}
+	if _, isStruct := a.Type().(*types.Pointer).Elem().Underlying().(*types.Struct); !isStruct {
+		return nil, false
+	}
+	out := map[int]ssa.Value{}
+	if a.Referrers() == nil {
+		return out, true
+	}
+	for _, ref := range *a.Referrers() {
+		switch x := ref.(type) {
+		case *ssa.FieldAddr:
+			if x.Referrers() == nil {
+				continue
+			}
+			for _, fr := range *x.Referrers() {
+				st, isSt := fr.(*ssa.Store)
+				if !isSt || st.Addr != ssa.Value(x) {
+					return nil, false
+				}
+				if _, dup := out[x.Field]; dup {
+					return nil, false
+				}
+				out[x.Field] = st.Val
+			}
+		case *ssa.UnOp, *ssa.DebugRef:
+		default:
+			return nil, false
+		}
+	}
+	return out, true
+}
+
+// resultsKnownAt: what the caller knows about the results of `site` when the callee returned through ret — constants
+// for the call's value (a single result), for its Extracts (several results) and for Field reads of a struct result
+// that the callee built with a literal (fields the literal leaves out are zero).
+func resultsKnownAt(site *ssa.Call, ret *ssa.Return) map[ssa.Value]stVal {
+	known := map[ssa.Value]stVal{}
+	rs := retResults(ret)
+	constOf := func(v ssa.Value) stVal {
+		if k, ok := v.(*ssa.Const); ok {
+			if i, isI := constInt(k); isI {
+				return stVal{true, i}
+			}
+			if k.Value != nil && k.Value.Kind() == constant.Bool {
+				return stVal{true, b2i(k.Value.String() == "true")}
+			}
+		}
+		return stVal{}
+	}
+	zeroOf := func(t types.Type) stVal {
+		if b, ok := t.Underlying().(*types.Basic); ok && b.Info()&(types.IsBoolean|types.IsInteger) != 0 {
+			return stVal{true, 0}
+		}
+		return stVal{}
+	}
+	var bind func(v ssa.Value, res ssa.Value)
+	bind = func(v ssa.Value, res ssa.Value) {
+		if k := constOf(res); k.known {
+			known[v] = k
+		}
+		flds, isLit := structLitFields(res)
+		if v.Referrers() == nil {
+			return
+		}
+		fieldKnown := func(at ssa.Value, idx int, t types.Type) {
+			if fv, has := flds[idx]; has {
+				if k := constOf(fv); k.known {
+					known[at] = k
+				}
+			} else if k := zeroOf(t); k.known {
+				known[at] = k
+			}
+		}
+		for _, ref := range *v.Referrers() {
+			if f, isF := ref.(*ssa.Field); isF && isLit {
+				fieldKnown(f, f.Field, f.Type())
+			}
+			// res := call(); … res.f …: the result sits in a local that is written only here
+			st, isSt := ref.(*ssa.Store)
+			if !isSt || !isLit || st.Val != v {
+				continue
+			}
+			a, isA := st.Addr.(*ssa.Alloc)
+			if !isA || a.Referrers() == nil {
+				continue
+			}
+			var fas []*ssa.FieldAddr
+			clean := true
+			for _, ar := range *a.Referrers() {
+				switch x := ar.(type) {
+				case *ssa.FieldAddr:
+					fas = append(fas, x)
+				case *ssa.Store:
+					if x != st {
+						clean = false
+					}
+				case *ssa.UnOp, *ssa.DebugRef:
+				default:
+					clean = false
+				}
+			}
+			for _, fa := range fas {
+				if !clean || fa.Referrers() == nil {
+					continue
+				}
+				loadsOnly := true
+				for _, fr := range *fa.Referrers() {
+					if u, isU := fr.(*ssa.UnOp); !isU || u.Op != token.MUL {
+						if _, isD := fr.(*ssa.DebugRef); !isD {
+							loadsOnly = false
+						}
+					}
+				}
+				if !loadsOnly {
+					continue
+				}
+				for _, fr := range *fa.Referrers() {
+					if u, isU := fr.(*ssa.UnOp); isU {
+						fieldKnown(u, fa.Field, u.Type())
+					}
+				}
+			}
+		}
+	}
+	if len(rs) == 1 {
+		bind(site, rs[0])
+	} else if site.Referrers() != nil {
+		for _, ref := range *site.Referrers() {
+			if ex, isEx := ref.(*ssa.Extract); isEx && ex.Index < len(rs) {
+				bind(ex, rs[ex.Index])
+			}
+		}
+	}
+	return known
+}
+
+// retValuesDeep: the values a Return yields, including the field values of struct results built with a literal.
+func retValuesDeep(ret *ssa.Return) []ssa.Value {
+	var out []ssa.Value
+	for _, v := range retResults(ret) {
+		out = append(out, v)
+		if flds, ok := structLitFields(v); ok {
+			for _, fv := range flds {
+				out = append(out, fv)
+			}
+		}
+	}
+	return out
+}
+
+// returnsOf lists fn's Return instructions.
+func returnsOf(fn *ssa.Function) []*ssa.Return {
+	var out []*ssa.Return
+	allInstrs(fn, func(ins ssa.Instruction) {
+		if r, ok := ins.(*ssa.Return); ok {
+			out = append(out, r)
+		}
+	})
+	return out
+}
